@@ -32,6 +32,7 @@ def main():
     ap.add_argument("--replay")
     ap.add_argument("--setup", action="store_true")
     ap.add_argument("--only", help="substring filter on query names (debugging)")
+    ap.add_argument("--every", type=int, help="debugging: keep every N-th query only (smoke run of a big tier; evidence goes to .partial)")
     a = ap.parse_args()
     if a.setup:
         return setup()
@@ -44,6 +45,9 @@ def main():
     if a.only:
         queries = [q for q in queries if a.only in q.name]
         core.EVIDENCE = os.path.join(core.VERIF, "evidence", ".partial")   # never overwrite the registered evidence
+    if a.every:
+        queries = queries[::a.every]
+        core.EVIDENCE = os.path.join(core.VERIF, "evidence", ".partial")
     return core.run_check(a.prop, a.tier, queries, meta)
 
 
